@@ -60,11 +60,17 @@ def summary_lemmas(run, rowsem, patterns, widths, prefix="lemma/range"):
         run.query(f"{prefix}/w{k}", q, "unsat", "lemma/range-summary", get_model=False)
 
 
-def gadget_replay(run, gadget_args, layout, violated):
+def gadget_replay(run, gadget_args, layout, violated, complete=None):
     """Replay of a gadget-soundness model through the real compiler, prover and
     verifier: reproduced iff the proof of the forged assignment verifies and
-    `violated(model)` confirms the documented result is violated."""
-    def rp(model):
+    `violated(model)` confirms the documented result is violated.
+
+    Queries that use only a subset of the rows (premise weakening) return
+    partial models; with `complete=(rowsem, pins)` a partial model that does
+    not reproduce is first completed: the FULL layout is encoded, the witnesses
+    listed in `pins` are fixed to the model's values and the solver is asked
+    for a total assignment, which is then replayed."""
+    def attempt(model):
         from checks.common import real_at
         env = {}
         for i in range(len(layout.witnesses)):
@@ -76,6 +82,25 @@ def gadget_replay(run, gadget_args, layout, violated):
         bad, info = violated(model)
         return bool(o.get("verified")) and bad, {"gadget": gadget_args, "prover": o, "violated": info,
                                                  "env": env}
+
+    def rp(model):
+        ok, det = attempt(model)
+        if ok or complete is None:
+            return ok, det
+        rowsem, pins = complete
+        q = xe.Query()
+        xe.encode_layout(q, rowsem, layout)
+        for i in pins:
+            v = model.get(smt.vname(xe.wname(i)))
+            if v is not None:
+                q.add(f"(= {q.var(xe.wname(i))} {v % smt.R})")
+        r = smt.check(q.lines(), q.asserts, "z3", 60, get_model=True)
+        if r.status != "sat":
+            det["completion"] = r.status
+            return False, det
+        ok2, det2 = attempt(r.model)
+        det2["completed_from_partial_model"] = True
+        return ok2, det2
     return rp
 
 
